@@ -68,7 +68,7 @@ def generate(src):
         g = st.ghost; st.ghost = dict(g); st.ghost['kicks'] = g['kicks'] + 1
         st.ghost['sent'] = dict(task_id=recv.task_id, task_name=to_val(recv.task_name), labels=recv.labels, extra=recv.extra, args=to_val(args[0]), kwargs=to_val(kw['**']))
         ok = st.fork(); k(ok, None)
-        f = st.fork(); K['exc'](f, raise_any(f, 'Exception'))
+        f = st.fork(); f.ghost = dict(f.ghost); f.ghost['send_failed'] = True; K['exc'](f, raise_any(f, 'Exception'))
     def h_NoResultError(ex, st, e, recv, args, kw, k, K): return k(st, new_exc(st, 'NoResultError'))
     class Ex(Exec):
         def ev_Attribute(self, e, st, k, K):
@@ -118,8 +118,9 @@ def generate(src):
             oblige(s, "on_error/post: same args/kwargs  [C11]", And(snt['args'] == Val.ref(margs_a), snt['kwargs'] == Val.ref(mkw_a)))
             oblige(s, "on_error/post: labels are the message's labels with _retries = r+1  [C11]", And(BoolVal(isinstance(snt['labels'], PyDict)), snt['labels'].addr == labels_a, BoolVal(set(snt['extra']) == {'_retries'}), snt['extra'].get('_retries', Val.none) == Val.intv(r + 1)))
         rerr = g['result_error']
+        # (if the re-send itself failed and the middleware survives it, this attempt is the final one: its outcome must stay the stored result)
         oblige(s, "on_error/post: result.error becomes NoResultError iff re-sent and no_result_on_retry  [C11]",
-               If(And(should_kick, Val.b(nror)), And(Val.is_ref(rerr), CLS.sub_expr(s.heap.cls_of[Val.a(rerr)], 'NoResultError'), Val.a(rerr) >= h.next), rerr == err0))
+               If(And(should_kick, Val.b(nror), BoolVal(not g.get('send_failed'))), And(Val.is_ref(rerr), CLS.sub_expr(s.heap.cls_of[Val.a(rerr)], 'NoResultError'), Val.a(rerr) >= h.next), rerr == err0))
     def on_exc(s, x):
         exits['raise'] += 1
         oblige(s, "on_error/raises: only when the re-send itself failed  [C11]", s.ghost['kicks'] == 1)
